@@ -236,7 +236,7 @@ def run_shard(ctx):
                     n=rng.choice([1, 1, 1, 2, 3]))
 
 
-REQUIRE = [("b_long_distance_plaintexts", 8, "refjose-built tokens whose DEFLATE stream needs the full window"), ("a_checked", 300, "joserfc->refjose tokens"), ("b_checked", 300, "refjose->joserfc tokens"), ("c_checked", 25, "published vectors")]
+REQUIRE = [("b_long_distance_plaintexts", 8, "refjose-built tokens whose DEFLATE stream needs the full window"), ("a_checked", 120, "joserfc->refjose tokens"), ("b_checked", 120, "refjose->joserfc tokens"), ("c_checked", 25, "published vectors")]
 
 
 def replay(ctx, case):
